@@ -249,8 +249,10 @@ func (cr *run) checkField(env envs.Environment, fieldIdx int, in fieldInput) (ty
 			ww["stored_datetime"] = v.Datetime.Render()
 		}
 		if truncated {
-			cr.violate("field-value|reparse|text-truncated-after-parsing",
-				"a field text longer than MaxFieldChars is truncated after its typed values were parsed: the stored text does not re-parse to the stored number/datetime", ww)
+			// A text longer than MaxFieldChars is cut *after* its typed values were parsed. The statement is about values
+			// surviving their own rendered text; an over-long user text is not a rendering of the value, so this is
+			// recorded as an observation, not a violation (DESIGN.md §7).
+			cr.res.Count("field.reparsed.truncated_text_reparses_differently", 1)
 			return
 		}
 		cr.violate("field-value|reparse|"+bad+"-differs", "a field value's stored text does not re-parse to the stored typed values", ww)
